@@ -86,32 +86,39 @@ func (s *SeqSpec) step(c *Ctx, st SeqState, path []int, i int) bool {
 		st2.Close()
 		rp, _ := json.Marshal(seqReplay{Unit: s.UnitName, Path: full, Ops: labels})
 		v.Replay = rp
-		v.Stable = s.stable(full, v)
-		if !v.Stable {
+		// never reproducible = nondeterminism of the harness or the run: a harness error.
+		// Reproducible some of the time = the code under test behaves differently on equal
+		// histories (views into recycled buffers, map order): reported, marked unstable.
+		n := s.stable(full, v)
+		v.Stable = n == 4
+		if n == 0 {
 			a.Errors = append(a.Errors, fmt.Sprintf("%s: violation %s not reproducible on re-execution (nondeterminism): %s", s.UnitName, v.Assert, v.Detail))
 			continue
+		}
+		if !v.Stable {
+			v.Detail += fmt.Sprintf(" [shown again by %d of 4 re-executions of the same history]", n)
 		}
 		c.Report(v)
 	}
 	return keep
 }
 
-func (s *SeqSpec) stable(full []int, v Violation) bool {
+// stable re-executes the path 4 times on fresh instances and counts how often the
+// violation shows again (same assertion, same witness).
+func (s *SeqSpec) stable(full []int, v Violation) int {
+	n := 0
 	for k := 0; k < 4; k++ {
 		st := s.build(full[:len(full)-1], nil)
 		vs := st.Apply(full[len(full)-1], true)
 		st.Close()
-		ok := false
 		for _, o := range vs {
 			if o.Assert == v.Assert && o.Witness == v.Witness {
-				ok = true
+				n++
+				break
 			}
 		}
-		if !ok {
-			return false
-		}
 	}
-	return true
+	return n
 }
 
 func (s *SeqSpec) dfs(c *Ctx, st SeqState, path []int) {
@@ -273,19 +280,25 @@ func (s *FlatSpec) Explore(c *Ctx, prefix json.RawMessage, split bool) (children
 			rp, _ := json.Marshal(flatReplay{Unit: s.UnitName, Case: i})
 			v.Replay = rp
 			v.Stable = true
-			for k := 0; k < 4 && v.Stable && !v.Once; k++ {
-				_, _, _, again := s.Case(i)
-				ok := false
-				for _, o := range again {
-					if o.Assert == v.Assert && o.Witness == v.Witness {
-						ok = true
+			if !v.Once {
+				n := 0
+				for k := 0; k < 4; k++ {
+					_, _, _, again := s.Case(i)
+					for _, o := range again {
+						if o.Assert == v.Assert && o.Witness == v.Witness {
+							n++
+							break
+						}
 					}
 				}
-				v.Stable = ok
-			}
-			if !v.Stable {
-				c.Acc.Errors = append(c.Acc.Errors, fmt.Sprintf("%s: case %d: violation %s not reproducible: %s", s.UnitName, i, v.Assert, v.Detail))
-				continue
+				v.Stable = n == 4
+				if n == 0 {
+					c.Acc.Errors = append(c.Acc.Errors, fmt.Sprintf("%s: case %d: violation %s not reproducible: %s", s.UnitName, i, v.Assert, v.Detail))
+					continue
+				}
+				if !v.Stable {
+					v.Detail += fmt.Sprintf(" [shown again by %d of 4 re-executions of the same case]", n)
+				}
 			}
 			c.Report(v)
 		}
